@@ -627,9 +627,15 @@ theorem runPassDir_PND (p : PassT) (c : Ctx) (fuel : Nat) (h : WF c.seg) (hF : F
   · cases e; exact hP
   · simp only [] at e
     split at e
-    · exact runPass_PND p (c.withSeg (c.seg.reverseSlots (isMark c c.seg))) fuel (reverse_wf h _) (forest_congr (reverse_treeSame _ _) hF)
-        (reverse_PND hP _) e
-    · exact runPass_PND p c fuel h hF hP e
+    · cases e
+    · split at e
+      · cases e
+      · split at e
+        · cases e; exact hP
+        · split at e
+          · exact runPass_PND p (c.withSeg (c.seg.reverseSlots (isMark c c.seg))) fuel (reverse_wf h _) (forest_congr (reverse_treeSame _ _) hF)
+              (reverse_PND hP _) e
+          · exact runPass_PND p c fuel h hF hP e
 
 theorem runRange_PND (passes : Array PassT) (c : Ctx) (lo hi fuel : Nat) (h : WF c.seg) (hF : Forest c.seg) (hP : PND c.seg) {c' : Ctx}
     (e : runRange passes c lo hi fuel = .ok (some c')) : PND c'.seg := by
